@@ -306,7 +306,40 @@ def run_print(case):
     return res
 
 
-KINDS = {"print": run_print, "block": run_block, "usage": run_usage}
+def run_big16(case):
+    """Scale: ensembles of 7e4 .. 2e5 points (more rows than any block size a vectorisation would pick), dimension up to 8: every row is folded and
+    bounds-tested exactly like the same row handed over alone."""
+    from tempest.mcmc import apply_boundary_conditions, check_bounds
+
+    res = Res()
+    n, d, per, ref = case["n"], case["d"], case["per"], case["ref"]
+    vals = np.array(DYADIC + [-5e-324, 1.0000000000000002, -0.5, 0.75, 3.0, 0.125])
+    P = vals[(np.arange(n)[:, None] * (2 * np.arange(d)[None, :] + 1) + np.arange(d)[None, :]) % len(vals)]
+    pa, ra = (per or None), (ref or None)
+    with np.errstate(all="ignore"):
+        out = np.asarray(apply_boundary_conditions(P.copy(), pa, ra))
+        ok = np.asarray(check_bounds(out, pa, ra))
+    res.evals += 1
+    roles = ["p" if i in per else ("r" if i in ref else "s") for i in range(d)]
+    want = np.array([[_fold_exact(P[r_, i], roles[i]) for i in range(d)] for r_ in range(n)]) if n <= 5000 else None
+    # reference row by row through the same functions in small batches (decided exhaustively by the lattice phases)
+    bad = None
+    for a in range(0, n, 509):
+        with np.errstate(all="ignore"):
+            o2 = np.asarray(apply_boundary_conditions(P[a:a + 509].copy(), pa, ra))
+            k2 = np.asarray(check_bounds(o2, pa, ra))
+        if not np.array_equal(o2, out[a:a + 509], equal_nan=True) or not np.array_equal(k2, ok[a:a + 509]):
+            j = int(np.flatnonzero(np.any(o2 != out[a:a + 509], axis=1) | (k2 != ok[a:a + 509]))[0])
+            bad = (a + j, out[a + j].tolist(), bool(ok[a + j]), o2[j].tolist(), bool(k2[j]))
+            break
+    res.states += n
+    res.outcome(("big", n, d, tuple(per), tuple(ref)), nontrivial=True)
+    if bad is not None:
+        res.violate("big:differs-from-small-batches", f"{n} x {d} points, periodic={per} reflective={ref}: row {bad[0]} gives {bad[1]} accepted={bad[2]} inside the large array but {bad[3]} accepted={bad[4]} in a batch of 509 rows", dict(case))
+    return res
+
+
+KINDS = {"big": run_big16, "print": run_print, "block": run_block, "usage": run_usage}
 
 
 def plan(ctx):
@@ -341,5 +374,7 @@ def plan(ctx):
     ctx.bounds["point_array_forms"] = ["strided", "revstrided", "fortran", "readonly", "f32", "f16", "longdouble"]
     ctx.explore("point-array-forms", vf, chunksize=8)
     ctx.explore("numpy-print-options", [{"kind": "print"}])
+    ctx.explore("large-ensembles", [{"kind": "big", "n": n_, "d": d_, "per": p_, "ref": r_} for n_, d_, p_, r_ in
+                                    ((70001, 1, [], []), (9000, 8, [0], [3]), (40000, 4, [1], [2]), (200003, 3, [], []), (131073, 2, [0], []))])
     # each case runs in ONE process in a fixed order, so state leaking between kernel instances is part of the explored history
     ctx.explore("kernel-usage-of-the-maps", [{"kind": "usage", "kernel": k, "A": None} for k in ("rwm", "tpcn")])
